@@ -63,6 +63,31 @@ func checkC08(c *Check) {
 	}
 	truncationRules(c, "O-C08.3")
 	chainWriterRules(c)
+	// a valid request is signed: the JWS payload check refuses exactly what is not one JSON object
+	// (null, trailing data) - in particular white space after the value is fine (O-C16.2)
+	c.floor("payload acceptance rules (shared with C16)", 2, shareRules(c, checkC16, []string{"O-C16.2"}, "O-C08.1", "payload: "))
+	// COSE: the certificate chain of an external signer is only known after it has signed
+	for _, f := range fmts {
+		if f.name != "COSE" {
+			continue
+		}
+		if pg := c.skeleton(f.method("Sign")); pg != nil {
+			var writers []*PState
+			for _, s := range pg.States {
+				for _, e := range s.Out {
+					for _, l := range e.Labels {
+						if l.Kind == "call" && l.T != nil && strings.HasPrefix(l.T.Name, "ncg/signature/cose.") {
+							if wf := c.P.fn(l.T.Name); wf != nil && writesLabel33(wf) {
+								writers = append(writers, s)
+							}
+						}
+					}
+				}
+			}
+			c.floor("COSE x5chain writer calls in Sign", 1, len(writers))
+			c.mustPass(pg, "O-C08.3", "COSE: x5chain written after the message was signed", "writing the unprotected headers (the chain of an external signer exists only after Signer.Sign returned)", writers, AG("+IsNil((*github.com/veraison/go-cose.Sign1Message).Sign(**))"))
+		}
+	}
 	// every extended attribute travels with its key, value and criticality: the
 	// writer marks exactly the flagged keys (O-C13.6), the reader accepts a
 	// critical label iff the attribute is present (O-C13.4) and returns key,
@@ -520,4 +545,22 @@ func chainWriterRules(c *Check) {
 			rawCopy(pg, list, chainParam)
 		}
 	}
+}
+
+// writesLabel33: the function stores under the constant header label 33 (x5chain).
+func writesLabel33(fs *FuncSrc) bool {
+	writes := false
+	ast.Inspect(fs.Decl.Body, func(n ast.Node) bool {
+		if as, ok := n.(*ast.AssignStmt); ok {
+			for _, l := range as.Lhs {
+				if ix, ok := ast.Unparen(l).(*ast.IndexExpr); ok {
+					if tv := fs.Pkg.TypesInfo.Types[ix.Index]; tv.Value != nil && tv.Value.String() == "33" {
+						writes = true
+					}
+				}
+			}
+		}
+		return true
+	})
+	return writes
 }
